@@ -19,7 +19,7 @@ def nontrivial(s, run):
 def run(ctx):
     srvflow.run_check(
         ctx, design=DESIGN, edge_cfgs=EDGES, negs=NEGS, invariants=INV, corpus=["server_fault.ndjson"],
-        thorough_design=THOROUGH, nontrivial=nontrivial, random_flavour='fault', max_paths_quick=600,
+        thorough_design=THOROUGH, nontrivial=nontrivial, random_flavour=('fault', 'mix'), random_quick=240, max_paths_quick=600,
         rule="schedules = edge cover of the single-fault configs (kill at every point of a dispatch/completion history, "
              "tear-down of outstanding guards in every order, late WorkerAvailable, replacement) + counterexamples of the "
              "as-found variant (panic with one worker, spin with three) + two-fault corpus; panics and spins of the real "
